@@ -24,28 +24,42 @@ MANIFEST = dict(
     note='Trusted: Coq kernel + vm_compute, translate/c19_walk.py, zipfile, the VPK writer of vpk.py (and VPK.fileinfos only through a shape check), the OS directory semantics (RawFileSystem: exact names via os.path.isfile/open/os.walk after abspath; RootEscapeError belongs to C18). Model restrictions: ASCII case folding only in the model (non-ASCII casefold is searched on the in-memory and zip backends; VPK names are ASCII); stored names are clean relative "/" paths; ".." segments are modelled (full posixpath.normpath) and compared by correspondence but the general noise theorem covers only empty and "." segments; the composition theorems assume empty or clean prefixes and folders (other spellings: correspondence and oracle); absolute paths are outside the statement. Which of two stored names differing only in case wins depends on container order (c19_lookup_order_matters_for_case_duplicates); VPK regroups files, see known finding case-duplicate-winner-vpk-differs. Observations (not violations): RawFileSystem.open_bin of a directory raises IsADirectoryError where the others raise FileNotFoundError; File.path of a lookup differs per backend.',
 )
 
-IMPORTS = ['Coq.Lists.List', 'Coq.NArith.NArith', 'Coq.Bool.Bool', 'SV.SM.FsChain', 'SV.Gen.FsWalk_gen']
+IMPORTS = ['Coq.Lists.List', 'Coq.NArith.NArith', 'Coq.Bool.Bool', 'SV.SM.FsChain', 'SV.SM.FsChainForms', 'SV.Gen.FsWalk_gen']
 PRE = '''Import ListNotations. Open Scope N_scope.
 Fixpoint l1_eqb (a b : list N) : bool := match a, b with [], [] => true | x :: a', y :: b' => (x =? y) && l1_eqb a' b' | _, _ => false end.
 Fixpoint l2_eqb (a b : list (list N)) : bool := match a, b with [], [] => true | x :: a', y :: b' => l1_eqb x y && l2_eqb a' b' | _, _ => false end.
 Fixpoint l3_eqb (a b : list (list (list N))) : bool := match a, b with [], [] => true | x :: a', y :: b' => l2_eqb x y && l3_eqb a' b' | _, _ => false end.
 Fixpoint bad_idx {A} (f : A -> bool) (n : N) (l : list A) : list N := match l with [] => [] | x :: r => (if f x then [] else [n]) ++ bad_idx f (n + 1) r end.
 Definition code (o : option file) : list N := match o with Some (_, b) => 1 :: b | None => [0] end.
-Definition obs (b : backend) (fs : list file) (qs folders : list str) : list (list (list N)) :=
-  [map (fun q => code (lookup b fs q)) qs; map (fun q => if exists_ b fs q then [1] else [0]) qs; map (fun q => code (open_ b fs q)) qs]
+Definition vcode (lim : N) (d : bool) (c : cexpr) (o : option file) : list N :=
+  match o with Some (_, b) => 1 :: ceval c (vf_place (N.to_nat lim) d b) | None => [0] end.
+Definition obs (k : N) (lim : N) (d : bool) (b : backend) (fs : list file) (qs folders : list str) : list (list (list N)) :=
+  let cb := fun o => if k =? 2 then vcode lim d vpk_open_bin_content o else code o in
+  let cs := fun o => if k =? 2 then vcode lim d vpk_open_str_content o else code o in
+  [map (fun q => cb (lookup b fs q)) qs; map (fun q => if exists_ b fs q then [1] else [0]) qs; map (fun q => cb (open_ b fs q)) qs;
+   map (fun q => cs (open_ b fs q)) qs]
   ++ map (fun f => map fst (walk b fs f)) folders.
 Definition cfg_of (k : N) : backend := match k with 0 => virtual_cfg | 1 => zip_cfg | _ => vpk_cfg end.
 Definition raw_obs (fs : list file) (qs folders : list str) : list (list (list N)) :=
   [map (fun q => code (raw_lookup_ops raw_get_ops fs q)) qs;
    map (fun q => match raw_lookup_ops raw_exists_ops fs q with Some _ => [1] | None => [0] end) qs;
+   map (fun q => code (raw_lookup_ops raw_open_ops fs q)) qs;
    map (fun q => code (raw_lookup_ops raw_open_ops fs q)) qs]
   ++ map (fun f => map fst (raw_walk raw_walk_ops fs f)) folders.
 Definition mk_chain (ms : list ((N * list file * str) * bool)) : list member :=
   fold_left (fun acc x => add_sys2 chain_prio_action chain_plain_action (snd x) (member_of (cfg_of (fst (fst (fst x)))) (snd (fst (fst x))) (snd (fst x))) acc) ms [].
 Definition ordered (ms : list member) (fwd : bool) := if fwd then ms else rev ms.
+Definition do_insx (a : ins_action) (m : xmember) (ms : list xmember) : list xmember :=
+  match a with InsertAt n => firstn n ms ++ m :: skipn n ms | Append => ms ++ [m] end.
+Definition mk_xchain (ms : list ((N * list file * str) * bool)) : list xmember :=
+  fold_left (fun (acc : list xmember) (x : (N * list file * str) * bool) => do_insx (if snd x then chain_prio_action else chain_plain_action)
+                                  (xmember_of (cfg_of (fst (fst (fst x)))) (snd (fst (fst x))) (snd (fst x))) acc) ms [].
 Definition chain_obs (ms : list ((N * list file * str) * bool)) (qs folders : list str) : list (list (list N)) :=
   let c := mk_chain ms in
-  [map (fun q => code (chain_get (ordered c chain_get_forward) q)) qs]
+  let xc := mk_xchain ms in
+  [map (fun q => code (chain_get (ordered c chain_get_forward) q)) qs;
+   map (fun q => if chain_exists chain_exists_mode (if chain_get_forward then xc else rev xc) q then [1] else [0]) qs;
+   map (fun q => code (chain_open (ordered c chain_get_forward) q)) qs]
   ++ map (fun f => flat_map (fun x => [fst x; snd (snd x)]) (chain_walk_mode chain_dedup_mode chain_relmode chain_dedup_ops (ordered c chain_walk_forward) f)) folders
   ++ map (fun f => flat_map (fun x => [fst x; snd (snd x)]) (chain_walk_repeat chain_relmode (ordered c chain_walk_forward) f)) folders.
 '''
@@ -64,6 +78,38 @@ Proof.
   split; [reflexivity|]. destruct Hb as [<-|[<-|[<-|[]]]]; (split; [vm_compute; reflexivity|]); (split; [vm_compute; reflexivity|]); split; assumption.
 Qed.
 Print Assumptions today_chain_walk_lookup_closed.
+'''
+
+INSTANCE_THEOREM_FORMS = '''Import ListNotations.
+Definition gen_xmember (m : xmember) : Prop :=
+  exists b fs p, In b [virtual_cfg; zip_cfg; vpk_cfg] /\\ m = xmember_of b fs p /\\ clean_fs fs = true.
+(* `name in chain` answers exactly when chain[name] finds a file, for every chain over today's backends *)
+Theorem today_chain_exists_agrees : forall ms q,
+  Forall gen_xmember ms ->
+  chain_exists chain_exists_mode ms q = is_some (chain_get (map x_base ms) q).
+Proof.
+  intros ms q Hms.
+  apply (c19_chain_exists_agrees_backends chain_exists_mode ms q); [vm_compute; reflexivity|].
+  eapply Forall_impl; [|exact Hms]. intros m [b [fs [p [Hb [-> Hc]]]]]. exists b, fs, p.
+  split; [reflexivity|]. split; [|exact Hc]. destruct Hb as [<-|[<-|[<-|[]]]]; vm_compute; reflexivity.
+Qed.
+Print Assumptions today_chain_exists_agrees.
+(* the VPK backend returns the bytes the in-memory and zip backends return, wherever the VPK keeps them *)
+Theorem today_vpk_same_bytes : forall limit in_dir b2 fs q,
+  In b2 [virtual_cfg; zip_cfg] -> clean_fs fs = true ->
+  open_bytes vpk_open_bin_content limit in_dir vpk_cfg fs q = option_map snd (open_ b2 fs q)
+  /\\ open_bytes vpk_open_str_content limit in_dir vpk_cfg fs q = option_map snd (open_ b2 fs q)
+  /\\ open_bytes vpk_open_bin_content limit in_dir vpk_cfg fs q = option_map snd (lookup b2 fs q).
+Proof.
+  intros limit in_dir b2 fs q Hb Hc.
+  assert (H2 : backend_keys_norm b2 = true) by (destruct Hb as [<-|[<-|[]]]; vm_compute; reflexivity).
+  destruct (c19_vpk_open_same_bytes vpk_open_bin_content limit in_dir vpk_cfg b2 fs q) as [E1 E2];
+    [vm_compute; reflexivity|vm_compute; reflexivity|exact H2|exact Hc|].
+  destruct (c19_vpk_open_same_bytes vpk_open_str_content limit in_dir vpk_cfg b2 fs q) as [E3 _];
+    [vm_compute; reflexivity|vm_compute; reflexivity|exact H2|exact Hc|].
+  repeat split; assumption.
+Qed.
+Print Assumptions today_vpk_same_bytes.
 '''
 
 BACKENDS = ['virtual', 'zip', 'vpk', 'raw']
@@ -179,7 +225,7 @@ def folder_candidates(rng: random.Random, files) -> list[tuple[str, str]]:
 
 # ------------------------------------------------------------------------------------------------ building real backends
 class Built:
-    def __init__(self, root: str, files, which=BACKENDS) -> None:
+    def __init__(self, root: str, files, which=BACKENDS, vpk_limit=1024, vpk_arch=0) -> None:
         from srctools.filesys import VirtualFileSystem, ZipFileSystem, VPKFileSystem, RawFileSystem
         from srctools.vpk import VPK
         self.dir = tempfile.mkdtemp(dir=root)
@@ -195,9 +241,9 @@ class Built:
             self.fs['zip'] = ZipFileSystem(zp)
         if 'vpk' in which:
             vp = os.path.join(self.dir, 'p_dir.vpk')
-            with VPK(vp, mode='w') as vk:
+            with VPK(vp, mode='w', dir_data_limit=vpk_limit) as vk:
                 for n, b in files:
-                    vk.add_file(n, b)
+                    vk.add_file(n, b, arch_index=vpk_arch)
             self.fs['vpk'] = VPKFileSystem(vp)
             self.vpk_order = [(f.filename, f.read()) for f in self.fs['vpk'].vpk]
         if 'raw' in which:
@@ -241,6 +287,16 @@ def impl_lookup(fs, q):
     except Exception as e:      # noqa: BLE001
         op = f'{type(e).__name__}'
     return ex, got, op
+
+
+def impl_open_str(fs, q):
+    try:
+        with fs.open_str(q, 'utf8') as fh:
+            return fh.read().encode('utf8')
+    except (FileNotFoundError, IsADirectoryError):
+        return None
+    except Exception as e:      # noqa: BLE001
+        return f'{type(e).__name__}'
 
 
 def impl_walk(fs, folder):
@@ -294,14 +350,18 @@ def _files_lit(files) -> str:
 
 
 def corr_backends(ck: Ck, root: str) -> None:
-    n = ck.budget(40, 400)
+    n = ck.budget(32, 400)
     cases = []
     for i in range(n):
         rng = ck.rng
         files = CORPUS_SETS[i] if i < len(CORPUS_SETS) else gen_files(rng)
         if not files:
             continue
-        bt = Built(root, files, ['virtual', 'zip', 'vpk', 'raw'])
+        # where the VPK keeps the data: preload only / split with a numbered archive / split with the directory tail
+        lim, arch = rng.choice([(1024, 0), (0, 0), (3, 1), (0, None), (3, None), (7, None), (1, 2)])
+        ck.hist('corr_vpk_placement', f'limit={lim} arch_index={arch}')
+        bt = Built(root, files, ['virtual', 'zip', 'vpk', 'raw'], vpk_limit=lim, vpk_arch=arch)
+        place = f'({lim}, {"true" if arch is None else "false"})'
         try:
             qs = []
             for nm, _ in rng.sample(files, min(3, len(files))):
@@ -321,7 +381,7 @@ def corr_backends(ck: Ck, root: str) -> None:
             for k, name in enumerate(['virtual', 'zip', 'vpk']):
                 fs = bt.fs[name]
                 fl = bt.vpk_order if name == 'vpk' else files
-                res = [impl_lookup(fs, q) for q in qs]
+                res = [impl_lookup(fs, q) + (impl_open_str(fs, q),) for q in qs]
                 walks = [impl_walk(fs, f) for f in folders]
                 if any(isinstance(x, str) for r in res for x in r) or any(isinstance(w, str) for w in walks):
                     ck.violation(f'exception-{name}', f'{name} backend raised an unexpected exception',
@@ -330,20 +390,21 @@ def corr_backends(ck: Ck, root: str) -> None:
                     continue
                 exp = coq_list([coq_list(_code(r[1]) for r in res),
                                 coq_list(('[1]%N' if r[0] else '[0]%N') for r in res),
-                                coq_list(_code(r[2]) for r in res)]
+                                coq_list(_code(r[2]) for r in res),
+                                coq_list(_code(r[3]) for r in res)]
                                + [coq_list(coq_str(p) for p in w) for w in walks])
-                cases.append((f'(({k}, {_files_lit(fl)}), ({coq_list(coq_str(q) for q in qs)}, {coq_list(coq_str(f) for f in folders)}), {exp})',
+                cases.append((f'(({k}, {_files_lit(fl)}), ({coq_list(coq_str(q) for q in qs)}, {coq_list(coq_str(f) for f in folders)}), {place}, {exp})',
                               {'backend': name, 'files': [(a, b.decode()) for a, b in fl], 'queries': qs, 'folders': folders,
                                'impl_lookup': [(r[0], None if r[1] is None else r[1].decode(), None if r[2] is None else r[2].decode()) for r in res],
-                               'impl_walk': walks}))
+                               'impl_walk': walks, 'vpk_dir_data_limit': lim, 'vpk_arch_index': arch}))
                 ck.count('corr_backend_cases')
-                ck.count('corr_backend_observations', 3 * len(qs) + len(folders))
+                ck.count('corr_backend_observations', 4 * len(qs) + len(folders))
                 ck.hist('corr_backend', name)
                 if len(files) > 1 and any(w for w in walks):
                     ck.seen(('corr', name, tuple(a for a, _ in fl), tuple(qs), tuple(folders)))
             # raw: the same queries and folders (exact-case semantics; os.walk's order is the OS's: listed names are
             # put into stored order, anything unexpected is kept so that it shows as a disagreement)
-            rres = [impl_lookup(bt.fs['raw'], q) for q in qs]
+            rres = [impl_lookup(bt.fs['raw'], q) + (impl_open_str(bt.fs['raw'], q),) for q in qs]
             order = {nm: i for i, (nm, _) in enumerate(files)}
             rwalks = []
             for f in folders:
@@ -352,14 +413,15 @@ def corr_backends(ck: Ck, root: str) -> None:
             if not any(isinstance(x, str) for r in rres for x in r) and not any(isinstance(w, str) for w in rwalks):
                 exp = coq_list([coq_list(_code(r[1]) for r in rres),
                                 coq_list(('[1]%N' if r[0] else '[0]%N') for r in rres),
-                                coq_list(_code(r[2]) for r in rres)]
+                                coq_list(_code(r[2]) for r in rres),
+                                coq_list(_code(r[3]) for r in rres)]
                                + [coq_list(coq_str(p) for p in w) for w in rwalks])
-                cases.append((f'((3, {_files_lit(files)}), ({coq_list(coq_str(q) for q in qs)}, {coq_list(coq_str(f) for f in folders)}), {exp})',
+                cases.append((f'((3, {_files_lit(files)}), ({coq_list(coq_str(q) for q in qs)}, {coq_list(coq_str(f) for f in folders)}), {place}, {exp})',
                               {'backend': 'raw', 'files': [(a, b.decode()) for a, b in files], 'queries': qs, 'folders': folders,
                                'impl_lookup': [(r[0], None if r[1] is None else r[1].decode(), None if r[2] is None else r[2].decode()) for r in rres],
                                'impl_walk': rwalks}))
                 ck.count('corr_raw_cases')
-                ck.count('corr_backend_observations', 3 * len(qs) + len(folders))
+                ck.count('corr_backend_observations', 4 * len(qs) + len(folders))
                 ck.hist('corr_backend', 'raw')
             else:
                 ck.violation('exception-raw', 'raw backend raised an unexpected exception',
@@ -373,14 +435,15 @@ def corr_backends(ck: Ck, root: str) -> None:
     _t0 = time.time()
 
     def batch(lo: int):
-        part = cases[lo:lo + 60]
+        part = cases[lo:lo + 45]
         lit = coq_list(c for c, _ in part)
-        expr = ('bad_idx (fun c : (N * list file) * (list str * list str) * list (list (list N)) => '
-                'match fst (fst (fst c)) with 3 => l3_eqb (raw_obs (snd (fst (fst c))) (fst (snd (fst c))) (snd (snd (fst c)))) (snd c) '
-                '| k => l3_eqb (obs (cfg_of k) (snd (fst (fst c))) (fst (snd (fst c))) (snd (snd (fst c)))) (snd c) end) 0 ' + lit)
+        expr = ('bad_idx (fun c : (N * list file) * (list str * list str) * (N * bool) * list (list (list N)) => '
+                'let \'(kf, qf, pl, e) := c in '
+                'match fst kf with 3 => l3_eqb (raw_obs (snd kf) (fst qf) (snd qf)) e '
+                '| k => l3_eqb (obs k (fst pl) (snd pl) (cfg_of k) (snd kf) (fst qf) (snd qf)) e end) 0 ' + lit)
         return lo, ck.coq_eval(IMPORTS, [expr], name=f'backends{lo}', preamble=PRE)
 
-    for lo, vals in _parallel(batch, range(0, len(cases), 60)):
+    for lo, vals in _parallel(batch, range(0, len(cases), 45)):
         if vals is None:
             ck.obligation('correspondence:backends', False, 'model could not be evaluated')
             ck.tie_broken.append('correspondence backends: model evaluation failed')
@@ -436,12 +499,20 @@ def corr_chain(ck: Ck, root: str) -> None:
                 folders += [f for f, _ in rng.sample(c, min(2, len(c)))]
             folders = list(dict.fromkeys(folders))
             gets = []
+            exs = []
+            opens = []
             for q in qs:
                 try:
                     with ch[q].open_bin() as fh:
                         gets.append(fh.read())
                 except FileNotFoundError:
                     gets.append(None)
+                exs.append(bool(q in ch))
+                try:
+                    with ch.open_bin(q) as fh:
+                        opens.append(fh.read())
+                except FileNotFoundError:
+                    opens.append(None)
             walks = []
             for f in folders:
                 w = []
@@ -458,12 +529,13 @@ def corr_chain(ck: Ck, root: str) -> None:
             ms_lit = coq_list(
                 f'(({BACKENDS.index(kind)}, {_files_lit(builts[j].vpk_order if kind == "vpk" else sets[j])}, {coq_str(pfx)}), {"true" if prio else "false"})'
                 for kind, j, pfx, prio in members)
-            exp = coq_list([coq_list(_code(g) for g in gets)] + [coq_list(w) for w in walks])
+            exp = coq_list([coq_list(_code(g) for g in gets), coq_list(('[1]%N' if x else '[0]%N') for x in exs),
+                            coq_list(_code(g) for g in opens)] + [coq_list(w) for w in walks])
             cases.append((f'(({ms_lit}, ({coq_list(coq_str(q) for q in qs)}, {coq_list(coq_str(f) for f in folders)})), {exp})',
                           {'members(kind,set,prefix,priority)': members, 'sets': [[a for a, _ in s] for s in sets], 'queries': qs,
-                           'folders': folders, 'impl_get': [None if g is None else g.decode() for g in gets]}))
+                           'folders': folders, 'impl_get': [None if g is None else g.decode() for g in gets], 'impl_in': exs}))
             ck.count('corr_chain_cases')
-            ck.count('corr_chain_observations', len(qs) + 2 * len(folders))
+            ck.count('corr_chain_observations', 3 * len(qs) + 2 * len(folders))
             ck.hist('corr_chain_members', len(members))
             if len(members) > 1 and any(g is not None for g in gets):
                 ck.seen(('corrchain', tuple(members), tuple(tuple(a for a, _ in s) for s in sets), tuple(qs)))
@@ -493,7 +565,7 @@ def corr_chain(ck: Ck, root: str) -> None:
     bad.sort()
     ck.obligation('correspondence:chain', not bad,
                   f'{len(cases)} chains (1-4 members over Virtual/Zip/VPK, prefixes, priority flags): generated model vs '
-                  f'FileSystemChain _get_file / walk_folder / walk_folder_repeat: {len(bad)} disagreements')
+                  f'FileSystemChain chain[q] / q in chain / open_bin(q) / walk_folder / walk_folder_repeat: {len(bad)} disagreements')
     if bad:
         ck.tie_broken.append('correspondence chain (SM/FsChain.v chain_get/chain_walk vs srctools.filesys.FileSystemChain)')
         ck.extra['chain_disagreement'] = min((cases[i][1] for i in bad), key=lambda d: len(repr(d)))
@@ -1209,10 +1281,20 @@ def run(ck: Ck) -> None:
     ck.assumptions.append('the platform is POSIX with a case-sensitive file system (RawFileSystem: exact names only; "\\" is converted by the library, not by the OS)')
     ck.assumptions.append('composition theorems: member prefixes and the folder argument are empty or clean relative paths (either slash, any case)')
     root = str(ck.scratch)
+    _ta = time.time()
     ok_t = ck.translate('FsWalk_gen', c19_walk.translate)
     built = ok_t and ck.build(['Props/C19.vo', 'Gen/FsWalk_gen.vo'])
+    _tb = time.time()
     if built:
-        ck.theorems('Props/C19.v')
+        # the two instance theorems are checked by their own coqc processes while the main thread goes on
+        from concurrent.futures import ThreadPoolExecutor
+        pool = ThreadPoolExecutor(max_workers=3)
+        fut_thm = pool.submit(ck.theorems, 'Props/C19.v')      # Print Assumptions of every theorem (its obligations are moved to the front below)
+        fut_compose = pool.submit(ck.coq_scratch, ''.join(f'Require Import {i}.\n' for i in IMPORTS + ['SV.SM.FsChainProofs', 'SV.SM.FsChainCompose', 'SV.Props.C19'])
+                                  + INSTANCE_THEOREM, 'inst_compose', 300)
+        fut_forms = pool.submit(ck.coq_scratch, ''.join(f'Require Import {i}.\n' for i in IMPORTS + ['SV.SM.FsChainProofs', 'SV.SM.FsChainFormsProofs', 'SV.Props.C19'])
+                                + INSTANCE_THEOREM_FORMS, 'inst_forms', 300)
+        _tc = time.time()
         obs = {}
         for short, cfg in (('virtual', 'virtual_cfg'), ('zip', 'zip_cfg'), ('vpk', 'vpk_cfg')):
             obs[f'{short}_keys_case_and_slash_insensitive'] = f'backend_keys_ok {cfg}'
@@ -1237,19 +1319,35 @@ def run(ck: Ck) -> None:
         obs['chain_dedup_ignores_case'] = 'andb (forallb is_sf chain_dedup_ops) (has_fold chain_dedup_ops)'
         obs['chain_dedup_keeps_first_member'] = 'match chain_dedup_mode with DedupSkip => true | DedupOverwrite => false end'
         obs['chain_walk_names_relative_to_prefix'] = 'match chain_relmode with RelDropSegs => true | RelPath => false end'
+        obs['chain_exists_asks_each_member_its_own_name'] = 'exists_mode_ok chain_exists_mode'
+        obs['chain_open_goes_through_get_file'] = 'chain_open_via_get'
+        obs['filesystem_getitem_contains_iter_delegate'] = 'fs_dunders_delegate'
+        obs['vpk_open_bin_reads_whole_file'] = 'cexpr_whole false vpk_open_bin_content'
+        obs['vpk_open_str_reads_whole_file'] = 'cexpr_whole false vpk_open_str_content'
         ck.instance_obligations(IMPORTS, obs)
+        _td = time.time()
         # the composition theorem instantiated at the generated configuration (type-checks only if today's chain
         # de-duplicates by skipping, lists prefix-relative names and every backend form is sound)
-        rc, out = ck.coq_scratch(''.join(f'Require Import {i}.\n' for i in IMPORTS + ['SV.SM.FsChainProofs', 'SV.SM.FsChainCompose', 'SV.Props.C19'])
-                                 + INSTANCE_THEOREM, 'inst_compose', 300)
+        rc, out = fut_compose.result()
         ck.obligation('instance-theorem:chain_walk_lookup_closed', rc == 0,
                       'c19_chain_walk_lookup_closed applied to chain_walk_mode chain_dedup_mode chain_relmode chain_dedup_ops over '
                       'members built from virtual_cfg / zip_cfg / vpk_cfg' + ('' if rc == 0 else ': ' + out[-400:]))
+        rc, out = fut_forms.result()
+        ck.obligation('instance-theorem:chain_exists_and_vpk_bytes', rc == 0,
+                      'c19_chain_exists_agrees_backends at chain_exists_mode and c19_vpk_open_same_bytes at vpk_open_bin_content / '
+                      'vpk_open_str_content over virtual_cfg / zip_cfg / vpk_cfg' + ('' if rc == 0 else ': ' + out[-400:]))
         import time as _t
         t0 = _t.time(); corr_backends(ck, root); t1 = _t.time(); corr_chain(ck, root); t2 = _t.time()
-        ck.extra['stage_seconds'] = {'corr_backends': round(t1 - t0, 1), 'corr_chain': round(t2 - t1, 1)}
+        ck.extra['stage_seconds'] = {'translate_build': round(_tb - _ta, 1), 'instance_obligations': round(_td - _tc, 1),
+                                     'instance_theorems_wait': round(t0 - _td, 1), 'corr_backends': round(t1 - t0, 1), 'corr_chain': round(t2 - t1, 1)}
     import time as _t
     t3 = _t.time(); search(ck, root); ck.extra.setdefault('stage_seconds', {})['search'] = round(_t.time() - t3, 1)
+    if built:
+        _te = time.time()
+        fut_thm.result()
+        pool.shutdown()
+        ck.extra['stage_seconds']['theorems_wait'] = round(time.time() - _te, 1)
+        ck.obligations.sort(key=lambda o: 0 if o['name'].startswith(('theorem:', 'assumptions:')) else 1)     # stable: fixed order
     keys = {v['key'] for v in ck.violations}
 
     def any_key(*subs):
@@ -1276,6 +1374,19 @@ def run(ck: Ck) -> None:
     for what, sub in (('get', 'lookup-raw-'), ('exists', 'lookup-raw-'), ('open', 'lookup-raw-'), ('walk', 'walk-raw-')):
         if any_key(sub):
             ck.explain(f'instance:raw_{what}_converts_slashes_only')
+    if any_key('chain-contains-', 'chain-file_exists-'):
+        ck.explain('instance:chain_exists_asks_each_member_its_own_name')
+        ck.explain('instance-theorem:chain_exists_and_vpk_bytes')
+    if any_key('chain-open_bin-', 'chain-open_str-', 'chain-file_open_str-', 'chain-get_file-'):
+        ck.explain('instance:chain_open_goes_through_get_file')
+    if any_key('content-vpk-&-open_bin-', 'content-vpk-&-getitem-', 'content-vpk-&-get_file-', 'content-vpk-&-listed-file'):
+        ck.explain('instance:vpk_open_bin_reads_whole_file')
+        ck.explain('instance-theorem:chain_exists_and_vpk_bytes')
+    if any_key('content-vpk-&-open_str-'):
+        ck.explain('instance:vpk_open_str_reads_whole_file')
+        ck.explain('instance-theorem:chain_exists_and_vpk_bytes')
+    if any_key('chain-iter-', 'chain-contains-', 'chain-get-'):
+        ck.explain('instance:filesystem_getitem_contains_iter_delegate')
     if any_key('chain-walk-name-not-relative-to-prefix'):
         ck.explain('instance:chain_walk_names_relative_to_prefix')
     if any_key('chain-get-not-first-match'):
